@@ -151,13 +151,16 @@ Tree(pre) == Sub(pre, 1).t
 (***************************************************************************)
 (* tree -> canonical tokens.                                               *)
 (***************************************************************************)
-RECURSIVE Concat(_)
-Concat(ss) == IF ss = <<>> THEN <<>> ELSE Head(ss) \o Concat(Tail(ss))
-RECURSIVE Join(_, _)
+\* ss[1] \o ss[2] \o ... \o ss[n], by halves (a list of 1100 statements costs n log n, not n^2, copies in TLC)
+RECURSIVE ConcatRange(_, _, _)
+ConcatRange(ss, lo, hi) == IF lo > hi THEN <<>>
+                           ELSE IF lo = hi THEN ss[lo]
+                           ELSE LET mid == (lo + hi) \div 2
+                                IN ConcatRange(ss, lo, mid) \o ConcatRange(ss, mid + 1, hi)
+Concat(ss) == ConcatRange(ss, 1, Len(ss))
 \* ss[1] sep ss[2] sep ... ss[n]
-Join(ss, sep) == IF ss = <<>> THEN <<>>
-                 ELSE IF Len(ss) = 1 THEN ss[1]
-                 ELSE ss[1] \o sep \o Join(Tail(ss), sep)
+Join(ss, sep) == IF Len(ss) = 0 THEN <<>>
+                 ELSE Concat([i \in 1..(2 * Len(ss) - 1) |-> IF i % 2 = 1 THEN ss[(i + 1) \div 2] ELSE sep])
 Rep(n, x) == [i \in 1..n |-> x]
 Has(r, f) == f \in DOMAIN r
 
@@ -237,13 +240,18 @@ Toks(m) == Concat([i \in 1..Len(m.decls) |-> DeclToks(m.decls[i])])
 (* before a closing bracket, brace or parenthesis dropped, adjacent string *)
 (* pieces merged.                                                          *)
 (***************************************************************************)
-RECURSIVE CanonFrom(_, _)
-CanonFrom(ts, i) ==
-    IF i > Len(ts) THEN <<>>
-    ELSE LET t == TokAbs(ts[i]) IN
-         IF t = P(",") /\ i < Len(ts) /\ TokAbs(ts[i + 1]) \in {P("]"), P("}"), P(")")} THEN CanonFrom(ts, i + 1)
-         ELSE IF t.k = "str" /\ i < Len(ts) /\ ts[i + 1].k = "str"
-              THEN CanonFrom([ts EXCEPT ![i + 1] = StrTok(t.bytes \o ts[i + 1].bytes)], i + 1)
-         ELSE <<t>> \o CanonFrom(ts, i + 1)
-Canon(ts) == CanonFrom(ts, 1)
+IsStr(ts, i) == i >= 1 /\ i <= Len(ts) /\ ts[i].k = "str"
+RECURSIVE RunEnd(_, _)
+\* the last piece of the run of string pieces that contains piece i
+RunEnd(ts, i) == IF IsStr(ts, i + 1) THEN RunEnd(ts, i + 1) ELSE i
+\* what token i contributes: nothing if it is an optional comma or a later piece of a string, the whole string if it is
+\* the first piece, itself without its hint otherwise
+CanonAt(ts, i) ==
+    LET t == TokAbs(ts[i]) IN
+    IF t = P(",") /\ i < Len(ts) /\ TokAbs(ts[i + 1]) \in {P("]"), P("}"), P(")")} THEN <<>>
+    ELSE IF t.k = "str"
+         THEN IF IsStr(ts, i - 1) THEN <<>>
+              ELSE <<StrTok(Concat([j \in 1..(RunEnd(ts, i) - i + 1) |-> ts[i + j - 1].bytes]))>>
+    ELSE <<t>>
+Canon(ts) == Concat([i \in 1..Len(ts) |-> CanonAt(ts, i)])
 =============================================================================
